@@ -89,6 +89,23 @@ def cases_for(tier):
             out.append(c)
     out.append({"spec": spec, "plan": [_fs("/B/0", {"original": ["/A/0"]}), _fs("/C/0", {"original": ["/A/0"]})], "fm": _recov.FM(12),
                 "bound": 1 if quick else 2})
+    # both consumers fail TWICE, each failure losing the producer's current output: the second round of recoveries meets
+    # requests that an earlier recovery workflow already served
+    for lose in ({"outputs": ["/A/0"]}, {"original": ["/A/0"]}):
+        for fm in (4, 12):
+            out.append({"spec": spec, "plan": [dict(_fs("/B/0", lose), count=2), dict(_fs("/C/0", lose), count=2)], "fm": _recov.FM(fm),
+                        "idle_only": True, "bound": 1 if quick else 2})
+    for fm in (4, 12):
+        out.append({"spec": {"prog": "filescatter", "n": 2},
+                    "plan": [dict(_fs("/B/0.0", {"outputs": ["/A/0"]}), count=2), dict(_fs("/B/0.1", {"outputs": ["/A/0"]}), count=2)],
+                    "fm": _recov.FM(fm), "idle_only": True, "bound": 1 if quick else 2})
+    # two consumers of a gathered list fail together after one loss of everything upstream: the second recovery waits for
+    # SEVERAL tokens of one port that the first recovery regenerates
+    for n in ((2,) if quick else (2, 3)):
+        ups = ["/A/0"] + [f"/B/0.{i}" for i in range(n)]
+        out.append({"spec": {"prog": "filescatter2c", "n": n},
+                    "plan": [_fs("/C1/0", {"original": ups}), _fs("/C2/0", {"original": ups})], "fm": _recov.FM(12),
+                    "idle_only": True, "bound": 1 if quick else 2})
     # transfer-phase variants (the failing jobs have not started their commands yet)
     out.append({"spec": spec, "plan": [_fs("/B/0", {"original": ["/A/0"]}, "transfer"), _fs("/C/0", {"original": ["/A/0"]}, "transfer")], "fm": _recov.FM(12),
                 "idle_only": True, "bound": 1 if quick else 3})
